@@ -89,6 +89,11 @@ def components():
             out[f"hard demodulator {m['name']}"] = dict(make=(lambda mm=m: build_modem(mm)[1]), n=lambda f: 2, kind="complex", oned=True, blocks=False, state=True)
     out["constraint TotalPower(1.0)"] = dict(make=lambda: C.TotalPowerConstraint(1.0), n=lambda f: 2, kind="real", oned=False, blocks=False, state=False, nra=True, nonzero=True, nested=False)
     out["constraint AveragePower(1.0)"] = dict(make=lambda: C.AveragePowerConstraint(1.0), n=lambda f: 2, kind="real", oned=False, blocks=False, state=False, nra=True, nonzero=True, nested=False)
+    # the same constraints without the non-zero assumption (a silent member takes the uniform-signal fallback) and on complex members
+    out["constraint TotalPower(1.0) incl. silent members"] = dict(make=lambda: C.TotalPowerConstraint(1.0), n=lambda f: 2, kind="real", oned=False, blocks=False, state=False, nra=True, nested=False)
+    out["constraint AveragePower(1.0) incl. silent members"] = dict(make=lambda: C.AveragePowerConstraint(1.0), n=lambda f: 2, kind="real", oned=False, blocks=False, state=False, nra=True, nested=False)
+    out["constraint TotalPower(2.0) complex members"] = dict(make=lambda: C.TotalPowerConstraint(2.0), n=lambda f: 2, kind="complex", oned=False, blocks=False, state=False, nra=True, nested=False)
+    out["constraint AveragePower(0.5) complex members"] = dict(make=lambda: C.AveragePowerConstraint(0.5), n=lambda f: 2, kind="complex", oned=False, blocks=False, state=False, nra=True, nested=False)
     return out
 
 
